@@ -1,6 +1,27 @@
 """C08: branches, loops, break/continue/return do what their syntax says."""
 import interpcheck
 
+WHY = "return/break/continue directly inside the body of a try runs the catch block instead of leaving the function / loop"
+EXPECT = [
+    {"src": "func f() { try { return 1 } catch { return 2 } }\nf()", "field": "result", "want": "i:1", "finding": "signal-in-try", "why": WHY},
+    {"src": "func f() { try { return 1 } catch { }; return 2 }\nf()", "field": "result", "want": "i:1", "finding": "signal-in-try", "why": WHY},
+    {"src": "r = 0; for i in [1, 2, 3] { try { break } catch { }; r = r + 1 }; r", "field": "result", "want": "i:0", "finding": "signal-in-try", "why": WHY},
+    {"src": "r = 0; for i in [1, 2, 3] { try { continue } catch { }; r = r + 1 }; r", "field": "result", "want": "i:0", "finding": "signal-in-try", "why": WHY},
+    {"src": "func f() { for i in [1, 2, 3] { for j in [1, 2] { if j == 2 { return i * 10 + j } } }; return 0 }\nf()", "field": "result", "want": "i:12",
+     "why": "return ends the invocation from nested loops"},
+    {"src": "r = []; for i = 0; i < 3; i++ { if i == 1 { continue }; r += i }; r", "field": "result", "want": "[i:0,i:2]",
+     "why": "a C-style loop runs its post expression after continue"},
+    {"src": "r = []; for i in [1, 2, 3] { for j in [1, 2, 3] { if j == 2 { break }; r += i * 10 + j } }; r", "field": "result",
+     "want": "[i:11,i:21,i:31]", "why": "break acts on the innermost loop only"},
+    {"src": "r = []; for i in [1, 2, 3] { switch i {\ncase 2: break\n}; r += i }; r", "field": "result", "want": "[i:1]",
+     "why": "break inside a switch case acts on the enclosing loop"},
+    {"src": "func f() { return }\nfunc g() { return 1, 2 }\n[f(), g()]", "field": "result", "want": "[nil,[i:1,i:2]]",
+     "why": "return yields nil for no value and a list for several"},
+    {"src": "r = []; switch 2 {\ncase 1: r += 1\ncase 2, 3: r += 2\ncase 2: r += 22\ndefault: r += 9\n}; switch 7 {\ncase 1: r += 1\ndefault: r += 9\n}; r",
+     "field": "result", "want": "[i:2,i:9]", "why": "switch runs exactly the first equal case, else the default"},
+]
+
+
 def run(tier, seed, replay=None):
     return interpcheck.run_interp_check(
         "C08", "c08", ("result", "trace"), {"quick": 6000, "thorough": 150000}, tier, seed,
@@ -8,4 +29,4 @@ def run(tier, seed, replay=None):
              "functions, with break/continue/return at random positions and conditions drawn from every truthiness class "
              "(nil, booleans, zero/non-zero ints and floats, empty/non-empty/numeric strings, slices, maps); compared: result "
              "and probe trace; non-trivial = distinct source with a non-empty trace",
-        design_ref="DESIGN.md §4 C08")
+        design_ref="DESIGN.md §4 C08", expectations=EXPECT)
